@@ -21,6 +21,7 @@ import json
 import multiprocessing
 import os
 import re
+import shutil
 import time
 import types
 
@@ -46,12 +47,16 @@ def _cfg(name):
     return tlc.SPECS / (name + ".cfg")
 
 
-def emit(ctx, cfgs):
-    """Run the emission configurations (one TLC, one worker each) side by side; returns {cfg: [case, ...]}."""
+def emit(ctx, cfgs, simulate=None):
+    """Run the emission configurations (one TLC, one worker each) side by side; returns {cfg: [case, ...]}.
+    simulate: TLC random walks through the same builder (seeded): a SUBSET of what the exhaustive run of that configuration emits."""
     spec = tlc.SPECS / "JinjaRel.tla"
 
     def one(c):
         consts = " ".join(ln.strip() for ln in _cfg(c).read_text().split("CONSTANTS")[1].split("INVARIANT")[0].splitlines() if ln.strip())
+        if simulate:
+            return c, tlc.run_tlc(spec, _cfg(c), ctx.scratch, workers=1, timeout=600, xmx="4g", constants=consts + " (seeded random walks)",
+                                  simulate="num=%d" % simulate, depth=12, seed=ctx.seed + 1)
         return c, tlc.run_tlc(spec, _cfg(c), ctx.scratch, workers=1, timeout=3000, xmx="6g", constants=consts)
 
     out = {}
@@ -60,7 +65,7 @@ def emit(ctx, cfgs):
     for c, res in results:
         if not res.ok:
             raise MachineryFailure("case emission %s failed: %s %s\n%s" % (c, res.error, res.violated, res.out[-2000:]))
-        ctx.add_model(res, c)
+        ctx.add_model(res, c + ("(simulate)" if simulate else ""))
         out[c] = res.json_lines()
     return out
 
@@ -69,13 +74,33 @@ def emit(ctx, cfgs):
 _W = {}  # per-process state (inherited by the forked workers)
 
 NLS = {"lf": "\n", "crlf": "\r\n", "cr": "\r"}
-RAW8 = [{"env": "raw", "tb": tb, "lb": lb, "ktn": k, "nl": "lf"} for tb in (0, 1) for lb in (0, 1) for k in (0, 1)]
-CGE4 = [{"env": "cge", "tb": tb, "lb": lb, "ktn": None, "nl": "lf"} for tb in (0, 1) for lb in (0, 1)]
-NLX = [{"env": "raw", "tb": 1, "lb": 1, "ktn": 1, "nl": "crlf"}, {"env": "raw", "tb": 1, "lb": 1, "ktn": 0, "nl": "cr"},
-       {"env": "raw", "tb": 0, "lb": 0, "ktn": 1, "nl": "crlf"}]
-SAME_RUNS = RAW8 + CGE4 + NLX
-MARK_RUNS = RAW8 + [CGE4[0], CGE4[3]] + NLX[:2]
-EXT_RUNS = CGE4
+
+
+def R(env, tb, lb, ktn, nl="lf"):
+    return {"env": env, "tb": tb, "lb": lb, "ktn": ktn, "nl": nl}
+
+
+RAW8 = [R("raw", tb, lb, k) for tb in (0, 1) for lb in (0, 1) for k in (0, 1)]
+# keep_trailing_newline only matters for sources (or loader templates) that end with a line terminator: elsewhere it alternates
+RAW4 = [R("raw", tb, lb, tb ^ lb) for tb in (0, 1) for lb in (0, 1)]
+CGE3 = [R("cge", 1, 0, None), R("cge", 0, 1, None), R("cge", 1, 1, None)]
+CGE4 = [R("cge", tb, lb, None) for tb in (0, 1) for lb in (0, 1)]
+NLX = [R("raw", 1, 1, 1, "crlf"), R("raw", 0, 0, 0, "cr")]
+LOADER_KINDS = {"include", "import", "from", "extends"}
+
+
+def runs_for(case):
+    """the renderings of one case: (environment kind, trim_blocks, lstrip_blocks, keep_trailing_newline, source newline style)"""
+    k = case["k"]
+    src = "".join(case["ps"])
+    if k == "same":
+        rs = (RAW8 if src.endswith("\n") or LOADER_KINDS & set(case["ks"]) else RAW4) + CGE3 + (NLX if "\n" in src else [])
+        if case.get("plus"):
+            rs = [r for r in rs if r["lb"]]
+        return rs
+    if k == "marker":
+        return RAW4 + [R("raw", 0, 0, 0), R("cge", 1, 1, None), R("cge", 0, 0, None)] + (NLX if "\n" in src else [])
+    return CGE4
 
 
 def init_engines(tables):
@@ -93,7 +118,7 @@ def init_engines(tables):
     for c in tables["contexts"]:
         ctxs.append(dict(c))
     mctx = {k: "".join(map(chr, v)) for k, v in tables["mstrings"].items()}
-    mctx.update({"n": 3, "xs": [1, 2], "c1": True, "c2": False})
+    mctx.update({"n": 3, "xs": [1, 2], "c1": True, "c2": False, "v": "V"})
     _W.update(B=B, S=S, builder=CodeGenEnvironmentBuilder, lctx=LanguageContextBuilder().set_target_language("c").create(),
               loader=dict(tables["loader"]), ctxs=ctxs, mctx=mctx, envs={})
     return B, S
@@ -168,23 +193,11 @@ def outcomes(eng, run, src, ctxs):
     return res
 
 
-def runs_for(case):
-    k = case["k"]
-    if k == "same":
-        rs = SAME_RUNS
-        if case.get("plus"):
-            rs = [r for r in rs if r["lb"]]
-        return rs
-    if k == "marker":
-        return MARK_RUNS
-    return EXT_RUNS
-
-
 def cps(s):
     return [ord(c) for c in s]
 
 
-def records_for(rid, case):
+def records_for(rid, case, only=None):
     """-> list of (id, record) ; ids are rid*64 + j.  One record per template (same) or per (template, run) (others)."""
     k = case["k"]
     src = "".join(case["ps"])
@@ -199,10 +212,12 @@ def records_for(rid, case):
     twin = "".join(case["pp"])
     res = []
     for j, r in enumerate(runs):
+        if only is not None and j != only:
+            continue
         rec = {"id": rid * 64 + j, "k": k}
         if k == "marker":
             c = [_W["mctx"]]
-            rec.update(pre=cps(case["pre"]), post=cps(case["post"]), ws=cps(case["ws"]), m=outcomes("b", r, src, c)[0], p=outcomes("b", r, twin, c)[0],
+            rec.update(ck=case["ck"], pre=cps(case["pre"]), post=cps(case["post"]), ws=cps(case["ws"]), m=outcomes("b", r, src, c)[0], p=outcomes("b", r, twin, c)[0],
                        s=outcomes("s", r, twin, c)[0])
         elif k == "assert":
             c = [_W["ctxs"][0]]
@@ -266,11 +281,10 @@ def validate_lines(ctx, lines, batch):
             for i, _ln, n in chunk:
                 if i in bad:
                     cl, d = bad[i]
-                    nbad += bin(d).count("1") if cl == "jinja.same" and d > 0 else 1
+                    nbad += bin(d).count("1") if n > 1 else 1
             ctx.validated(sum(n for _i, _l, n in chunk) - nbad)
             rejects.update(bad)
-    for p, _c in jobs:
-        p.unlink()
+    shutil.rmtree(str(tdir), ignore_errors=True)
     return rejects
 
 
@@ -298,73 +312,103 @@ def star_comment_only(case, run, ci):
     if "comment*" not in case["ks"]:
         return False
     src = "".join(p.replace("* c *", " c c ") if k == "comment*" else p for p, k in zip(case["ps"], case["ks"]))
-    c = [_W["ctxs"][ci]]
-    return outcomes("b", run, src, c) == outcomes("s", run, src, c)
+    b, s = outcomes("b", run, src, [_W["ctxs"][ci]])[0], outcomes("s", run, src, [_W["ctxs"][ci]])[0]
+    return (b["ok"] == 1 and b["out"] == s["out"]) if s["ok"] else not b["ok"]
+
+
+def _attr_work(chunk):
+    return [star_comment_only(case, run, ci) for case, run, ci in chunk]
 
 
 def show(o):
     return repr("".join(map(chr, o["out"]))) if o["ok"] else "raises " + o["exc"]
 
 
+MODES = {1: "marker-raises", 2: "marker-succeeds-plain-raises", 3: "wrong-text"}
+
+
 class Judge:
-    def __init__(self, ctx):
+    def __init__(self, ctx, pool=None):
         self.ctx = ctx
-        self.stats = {"same": 0, "marker": 0, "assert": 0, "ifuses": 0, "renderings": 0, "strict_mismatch": 0, "marker_ok": 0, "exotic": 0}
-        self.lines_kept = {}
+        self.pool = pool
+        self.stats = {"same": 0, "marker": 0, "assert": 0, "ifuses": 0, "renderings": 0, "exotic": 0}
+        self.seen = set()
+
+    def report(self, sig, mk_what, replay):
+        """`mk_what` renders the failing case again for the message: only done for the first occurrence of a signature"""
+        if sig in self.seen:
+            return self.ctx.violation(sig, "", replay)
+        self.seen.add(sig)
+        return self.ctx.violation(sig, mk_what(), replay)
 
     def handle(self, cases, rejects):
         """cases: {rid: case}; rejects: {id: (clause, detail)}"""
         ctx = self.ctx
+        nctx = len(_W["ctxs"])
+        star = []
+        for i, (clause, detail) in sorted(rejects.items()):
+            if clause.startswith("harness"):
+                raise MachineryFailure("reference side inconsistent with the specification (%s): %r" % (clause, cases[i // 64]))
+            case = cases[i // 64]
+            if case["k"] == "same" and "comment*" in case["ks"]:
+                runs = runs_for(case)
+                star += [(case, runs[bit // nctx], bit % nctx) for bit in range(len(runs) * nctx) if detail >> bit & 1]
+        attr = {}
+        if star:
+            parts = list(chunks(star, 50))
+            res = self.pool.imap(_attr_work, parts) if self.pool else map(_attr_work, parts)
+            for part, rs in zip(parts, res):
+                for (case, run, ci), r in zip(part, rs):
+                    attr[("".join(case["ps"]), json.dumps(run, sort_keys=True), ci)] = r
         for i, (clause, detail) in sorted(rejects.items()):
             rid, j = divmod(i, 64)
             case = cases[rid]
             runs = runs_for(case)
-            if clause.startswith("harness"):
-                raise MachineryFailure("reference side inconsistent with the specification (%s): %r" % (clause, case))
+            src = "".join(case["ps"])
             if case["k"] == "same":
-                nctx = len(_W["ctxs"])
                 for bit in range(len(runs) * nctx):
                     if not detail >> bit & 1:
                         continue
                     run, ci = runs[bit // nctx], bit % nctx
-                    src = "".join(case["ps"])
-                    b = outcomes("b", run, src, [_W["ctxs"][ci]])[0]
-                    s = outcomes("s", run, src, [_W["ctxs"][ci]])[0]
-                    if star_comment_only(case, run, ci):
+                    if attr.get((src, json.dumps(run, sort_keys=True), ci)):
                         sig = "C19|jinja.same|comment-body-starting-with-star-eats-preceding-blanks"
                     else:
                         sig = "C19|jinja.same|%s|%s|trim=%d,lstrip=%d" % (run["env"], same_class(case), run["tb"], run["lb"])
-                    ctx.violation(sig, "template %r (%s): bundled engine %s, stock Jinja2 %s" % (src, fmt_run(run, ci), show(b), show(s)),
-                                  {"k": "same", "case": case, "run": run, "ctx": ci})
+
+                    def what(run=run, ci=ci):
+                        b = outcomes("b", run, src, [_W["ctxs"][ci]])[0]
+                        s = outcomes("s", run, src, [_W["ctxs"][ci]])[0]
+                        return "template %r (%s): bundled engine %s, stock Jinja2 %s" % (src, fmt_run(run, ci), show(b), show(s))
+
+                    self.report(sig, what, {"k": "same", "case": case, "run": run, "ctx": ci})
                 continue
             run = runs[j]
-            src, twin = "".join(case["ps"]), "".join(case["pp"])
-            recs = dict(records_for(rid, case))
-            rec = recs[i]
+            twin = "".join(case["pp"])
             if clause.startswith("drift:"):
                 ctx.drift("%s on %r (%s)" % (clause[6:], src, fmt_run(run, None)))
                 continue
             if clause.startswith("amb:"):
                 self.stats["exotic"] += 1
                 continue
+            rec = lambda: records_for(rid, case, only=j)[0][1]  # noqa: E731
             if case["k"] == "marker":
                 if clause == "jinja.same":
                     sig = "C19|jinja.same|%s|plain-twin-of-marker:%s|trim=%d,lstrip=%d" % (run["env"], case["ck"], run["tb"], run["lb"])
-                    what = "plain template %r (%s): bundled %s, stock %s" % (twin, fmt_run(run, None), show(rec["p"]), show(rec["s"]))
+                    what = lambda: (lambda r: "plain template %r (%s): bundled %s, stock %s" % (twin, fmt_run(run, None), show(r["p"]), show(r["s"])))(rec())  # noqa: E731
                 else:
-                    sig = "C19|jinja.lineprefix|" + marker_class(case, rec)
-                    what = ("marker template %r renders %s; plain template %r renders %s; prefix %r (%s)"
-                            % (src, show(rec["m"]), twin, show(rec["p"]), case["ws"], fmt_run(run, None)))
+                    sig = "C19|jinja.lineprefix|" + marker_class(case, MODES[detail])
+                    what = lambda: (lambda r: "marker template %r renders %s; plain template %r renders %s; prefix %r (%s)"  # noqa: E731
+                                    % (src, show(r["m"]), twin, show(r["p"]), case["ws"], fmt_run(run, None)))(rec())
             elif case["k"] == "assert":
                 sig = "C19|jinja.assert|%s|%s" % (case["place"], "falsy" if not case["truthy"] else "truthy")
-                what = ("template %r (%s): executed=%s truthy=%s => must %sraise; bundled %s; ordinary conditional through stock %s"
-                        % (src, fmt_run(run, None), case["executed"], case["truthy"], "" if case["raises"] else "not ", show(rec["b"]), show(rec["s"])))
+                what = lambda: (lambda r: "template %r (%s): executed=%s truthy=%s => must %sraise; bundled %s; ordinary conditional through stock %s"  # noqa: E731
+                                % (src, fmt_run(run, None), case["executed"], case["truthy"], "" if case["raises"] else "not ", show(r["b"]), show(r["s"])))(rec())
             else:
                 shape = ",".join(("n" if c["neg"] else "p") + c["q"] for c in case["cl"]) + ("+else" if case["else"] else "")
                 sig = "C19|jinja.ifuses|" + re.sub(r"[TFU]", "", shape)
-                what = ("chain %r [%s] (%s): ordinary conditional selects branch %s; bundled %s; plain if/elif/else through stock %s"
-                        % (src, shape, fmt_run(run, None), case["sel"], show(rec["b"]), show(rec["s"])))
-            ctx.violation(sig, what, {"k": case["k"], "case": case, "run": run})
+                what = lambda: (lambda r: "chain %r [%s] (%s): ordinary conditional selects branch %s; bundled %s; plain if/elif/else through stock %s"  # noqa: E731
+                                % (src, shape, fmt_run(run, None), case["sel"], show(r["b"]), show(r["s"])))(rec())
+            self.report(sig, what, {"k": case["k"], "case": case, "run": run})
 
 
 def fmt_run(run, ci):
@@ -377,8 +421,7 @@ def fmt_run(run, ci):
 NONSTRING = {"n", "xs", "none"}
 
 
-def marker_class(case, rec):
-    mode = "marker-raises" if rec["p"]["ok"] and not rec["m"]["ok"] else ("marker-succeeds-plain-raises" if not rec["p"]["ok"] else "wrong-text")
+def marker_class(case, mode):
     if case["ck"] == "var":
         e = re.search(r"\{\{\*\s*(.*?)\s*-?\}\}", "".join(case["ps"])).group(1)
         if e in NONSTRING and mode == "marker-raises":
@@ -402,7 +445,9 @@ def chunks(seq, n):
 def judge_all(ctx, judge, cases, pool, slab, keep=None):
     """render every case with both engines (process pool), let the T-layer judge every record, handle the rejections"""
     base = judge.stats.setdefault("next_rid", 0)
+    tm = judge.stats.setdefault("time", {"render_s": 0.0, "tlc_judge_s": 0.0, "handle_s": 0.0})
     for part in chunks(cases, slab):
+        t0 = time.time()
         cmap = {base + i: c for i, c in enumerate(part)}
         items = list(cmap.items())
         lines = []
@@ -412,8 +457,13 @@ def judge_all(ctx, judge, cases, pool, slab, keep=None):
         nr = sum(n for _i, _l, n in lines)
         ctx.count(nr)
         judge.stats["renderings"] += nr
+        t1 = time.time()
         rej = validate_lines(ctx, lines, max(50, min(1500, len(lines) // NCPU + 1)))
+        t2 = time.time()
         judge.handle(cmap, rej)
+        tm["render_s"] += t1 - t0
+        tm["tlc_judge_s"] += t2 - t1
+        tm["handle_s"] += time.time() - t2
         for rid, c in cmap.items():
             judge.stats[c["k"]] += 1
             ctx.distinct(c["k"] + sha("".join(c["ps"]))[:14], nontrivial=any(k != "text" for k in c["ks"]))
@@ -428,12 +478,19 @@ def judge_all(ctx, judge, cases, pool, slab, keep=None):
 
 def load_universe(ctx):
     """the deterministic frozen universe of the tier + the tables (loader, contexts)"""
-    quick = ["JinjaRel_lex1_q", "JinjaRel_lex3_q", "JinjaRel_struct_q", "JinjaRel_expr", "JinjaRel_marker_q", "JinjaRel_assert", "JinjaRel_ifuses"]
-    thorough = ["JinjaRel_lex1_t", "JinjaRel_lex2_t", "JinjaRel_lex3_t", "JinjaRel_struct_t", "JinjaRel_expr", "JinjaRel_marker_t",
-                "JinjaRel_assert", "JinjaRel_ifuses"]
-    # the quick tier adds a seeded subset of the thorough universe (the seed selects, it never generates)
-    names = quick + [c for c in thorough if c not in quick and not c.startswith("JinjaRel_marker")] if ctx.quick else thorough
+    quick = ["JinjaRel_lex1_q", "JinjaRel_lex3_q", "JinjaRel_struct_q", "JinjaRel_expr", "JinjaRel_marker_q", "JinjaRel_assert", "JinjaRel_ifuses_q"]
+    thorough = ["JinjaRel_lex1_t", "JinjaRel_lex1_tight", "JinjaRel_lex2_t", "JinjaRel_lex3_t", "JinjaRel_struct_t", "JinjaRel_expr", "JinjaRel_marker_t",
+                "JinjaRel_assert", "JinjaRel_ifuses_t"]
+    names = quick if ctx.quick else thorough
     got = emit(ctx, names)
+    if ctx.quick:
+        # the quick tier adds a seeded subset of the thorough universe (the seed selects, it never generates anything new)
+        extra = [c for c in thorough if c not in quick and not c.startswith("JinjaRel_marker")]
+        sim = emit(ctx, extra, simulate=300)
+        for name in extra:
+            cs = sorted((c for c in sim[name] if c["k"] != "tables"), key=lambda c: json.dumps(c, sort_keys=True))
+            uniq = [c for i, c in enumerate(cs) if i == 0 or c != cs[i - 1]]
+            got[name + "(seeded subset)"] = ctx.rng.sample(uniq, min(len(uniq), 2500))
     tables = None
     for cs in got.values():
         for c in cs:
@@ -443,13 +500,11 @@ def load_universe(ctx):
         raise MachineryFailure("the tables record was not emitted")
     uni = {}
     seen = set()
-    for name in names:
-        cs = [c for c in got[name] if c["k"] != "tables"]
-        if ctx.quick and name not in quick:
-            cs = sorted(cs, key=lambda c: json.dumps(c, sort_keys=True))
-            cs = ctx.rng.sample(cs, min(len(cs), 2500))
+    for name, cs in got.items():
         out = []
         for c in cs:
+            if c["k"] == "tables":
+                continue
             key = (c["k"], "".join(c["ps"]), c.get("plus"))
             if key in seen:
                 continue
@@ -465,14 +520,18 @@ def run(ctx):
     neg = tlc.run_tlc(tlc.SPECS / "JinjaRel.tla", _cfg("JinjaRel_sem_neg"), ctx.scratch)
     if neg.violated != "ImplIsStrict":
         raise MachineryFailure("negative control: 'do_lineprefix equals the text-level reading' was not refuted (%s %s)" % (neg.error, neg.violated))
-    ctx.cov["model_negative_control"] = "ImplLP = StrictLP refuted by TLC (do_lineprefix drops the final terminator / rewrites CR): P is the reading both imply"
+    neg2 = tlc.run_tlc(tlc.SPECS / "JinjaRel.tla", _cfg("JinjaRel_ifuses_neg"), ctx.scratch)
+    if neg2.violated != "CarriedNegateRefines":
+        raise MachineryFailure("negative control: a parse loop that carries `negate` over an elifuses was not refuted (%s %s)" % (neg2.error, neg2.violated))
+    ctx.cov["model_negative_control"] = ("ImplLP = StrictLP refuted by TLC (do_lineprefix drops the final terminator / rewrites CR): P is the reading both "
+                                         "imply; UseQuery parse loop without `negate = False` on elifuses refuted against ChainP")
 
     # 2. spec -> code: the universe
     tables, uni = load_universe(ctx)
     init_engines(tables)
-    judge = Judge(ctx)
     keep = {}
     pool = multiprocessing.get_context("fork").Pool(NCPU)
+    judge = Judge(ctx, pool)
     try:
         for name, cases in uni.items():
             if not cases:
@@ -486,14 +545,20 @@ def run(ctx):
         if st[k] == 0:
             raise MachineryFailure("no %s case was judged" % k)
 
+    if st["exotic"]:
+        ctx.ambiguous({"what": "marker on an expression whose value contains a line boundary that only str.splitlines() knows (FF, NEL, LS ...): "
+                               "do_lineprefix treats it as a line end and rewrites it to LF; with LF/CR/CRLF as the only line ends the rendering is not the "
+                               "prefixed plain text.  'Line' is not defined by the property: accepted under Python's notion, recorded here.",
+                       "renderings": st["exotic"]})
     # 3. the text-level reading of the second sentence (note only): how often does the code differ from it while satisfying P
     note_readings(ctx, uni)
+    note_scope(ctx)
 
     # 4. binding self-tests: corrupt one recorded field per record kind; the T-layer must reject exactly that record
     selftests(ctx, keep)
 
     ctx.sample({"direction": "spec->code->spec", "kind": "same", "template": "".join(uni[list(uni)[0]][len(uni[list(uni)[0]]) // 2]["ps"]),
-                "runs": "%d (environment, flags, source newline) x %d contexts, bundled vs stock" % (len(SAME_RUNS), len(_W["ctxs"]))})
+                "runs": "4-13 (environment, flags, source newline) x %d contexts, bundled vs stock" % len(_W["ctxs"])})
     for k, (ln, case) in sorted(keep.items()):
         r = json.loads(ln)
         if k != "same":
@@ -501,6 +566,7 @@ def run(ctx):
                         **{f: (show(r[f]) if isinstance(r.get(f), dict) else None) for f in ("m", "p", "b", "s") if f in r}})
     ctx.cov["universe"] = {n: len(c) for n, c in uni.items()}
     ctx.cov["judged"] = {k: st[k] for k in ("same", "marker", "assert", "ifuses", "renderings")}
+    ctx.cov["phases_s"] = {k: round(v, 1) for k, v in st["time"].items()}
     ctx.cov["skew_register"] = SKEW
     ctx.cov["rule"] = ("evaluations = renderings compared (template x environment/flag set x context; bundled vs reference); distinct = distinct "
                        "template sources per record kind; non-trivial = contains at least one tag.  The universe is enumerated exhaustively by TLC "
@@ -524,7 +590,7 @@ def note_readings(ctx, uni):
         for case in cases:
             if case["k"] != "marker" or case["ck"] not in ("var", "if", "include"):
                 continue
-            run = MARK_RUNS[0]
+            run = RAW4[0]
             m = outcomes("b", run, "".join(case["ps"]), [_W["mctx"]])[0]
             p = outcomes("b", run, "".join(case["pp"]), [_W["mctx"]])[0]
             if not (m["ok"] and p["ok"]):
@@ -553,6 +619,17 @@ def note_readings(ctx, uni):
                        "marker_renderings_checked": n, "differ_from_text_level_reading": bad, "example": ex})
 
 
+def note_scope(ctx):
+    """observation outside the asserted clause: the marker wraps the block in a FilterBlock, which is a scope"""
+    m = outcomes("b", RAW4[0], "  {%* set a = 1 %}{{ a }}", [{}])[0]
+    p = outcomes("b", RAW4[0], "{% set a = 1 %}{{ a }}", [{}])[0]
+    if p["ok"] and not m["ok"]:
+        ctx.ambiguous({"what": "a block opened with the marker is wrapped in a filter block, which is a scope: assignments / macros / imports made inside "
+                               "`{%* ... %}` are not visible after it (`  {%* set a = 1 %}{{ a }}` raises, the plain template prints 1).  The property "
+                               "constrains how the construct RENDERS; whether its side effects survive is not stated -> not asserted, recorded.",
+                       "marker": show(m), "plain": show(p)})
+
+
 def selftests(ctx, keep):
     tests = []
     for k in ("same", "marker", "assert", "ifuses"):
@@ -573,7 +650,7 @@ def selftests(ctx, keep):
     r["b"] = {"ok": 1, "out": (r["b"].get("out") or []) + cps("E\n")}
     tests.append(("ifuses: another branch rendered", r, "jinja.ifuses"))
     # marker: a synthetic record built from an accepted one -- the prefix is missing on the second line
-    r = {"id": 0, "k": "marker", "pre": cps("A\n"), "post": cps("\nZ"), "ws": cps("  "), "s": {"ok": 1, "out": cps("A\na\nb\nZ")},
+    r = {"id": 0, "k": "marker", "ck": "var", "pre": cps("A\n"), "post": cps("\nZ"), "ws": cps("  "), "s": {"ok": 1, "out": cps("A\na\nb\nZ")},
          "p": {"ok": 1, "out": cps("A\na\nb\nZ")}, "m": {"ok": 1, "out": cps("A\n  a\nb\nZ")}}
     tests.append(("marker: prefix missing on the second line", r, "jinja.lineprefix"))
     r = dict(r, m={"ok": 1, "out": cps("A\n  a\n  b\nZ")})
